@@ -5,12 +5,14 @@ computation onto one, so that the rules - written against that one spelling - gi
 
   P1  branch polarity      `if not c: A else: B` -> `if c: B else: A`;  `if x is not None: A else: B` -> `if x is None: B else: A`;  `if a != b: A else: B` -> `if a == b: B else: A`
                            (statements with two non-empty arms, and conditional expressions)
+  P2b returned choice      `return a if c else b` -> `if c: return a` `return b`
   P2  no else after exit   `if c: ...; return/raise/break/continue  else: REST`  ->  `if c: ...exit`  followed by REST
   P3  effect loops         an expression statement that is a comprehension evaluated for its side effects becomes a for loop
   P3b accumulation loops  `L = []; for x in xs: L.append(e)` becomes `L = [e for x in xs]`
   P3c local functions     a nested `def f(x): return e` becomes `f = lambda x: e`
   P4  new helpers          a function / method that the reference snapshot does not know (a freshly extracted private helper) is
                            inlined at its call sites (arguments bound once, locals renamed) and removed
+  P4b renamed helpers      a private function unknown to the reference opposite a vanished private reference name is renamed back
   P5  new temporaries      a local the reference does not know, bound once and read once in the next statement, is written
                            back in place (single use: no alias is lost; adjacent: no call crosses another statement)
   P6  renamed locals       the remaining locals are mapped back to the reference names by order of first binding
@@ -128,6 +130,12 @@ def _restructure(body, nested=False):
         loop = _effect_comp_to_loop(st) or _extend_comp_to_loop(st)
         if loop is not None:
             st = loop
+        if isinstance(st, ast.Return) and isinstance(st.value, ast.IfExp):
+            # `return a if c else b`  ->  `if c: return a` `return b`   (then handled like any two-way return)
+            first = ast.copy_location(ast.If(test=st.value.test, body=[ast.copy_location(ast.Return(value=st.value.body), st)], orelse=[]), st)
+            second = ast.copy_location(ast.Return(value=st.value.orelse), st)
+            out.extend(_restructure([first, second], nested))
+            continue
         if nested:
             lam = _local_def_to_lambda(st)
             if lam is not None:
@@ -169,6 +177,27 @@ def _simple_arg(e):
     return isinstance(e, (ast.Name, ast.Constant))
 
 
+def _guard_form(fn):
+    """Helper bodies of the shape  [plain statements]  [if c: return A]*  return B  (guards after the last plain statement)
+    are an expression  A if c else (...)  preceded by the plain statements.  Returns (statements, return expression) or None."""
+    body = [s for s in fn.body if not (isinstance(s, ast.Expr) and isinstance(s.value, ast.Constant) and isinstance(s.value.value, str))]
+    if not body or not isinstance(body[-1], ast.Return) or body[-1].value is None:
+        return None
+    k = len(body) - 1
+    guards = []
+    while k - 1 >= 0 and isinstance(body[k - 1], ast.If) and not body[k - 1].orelse and len(body[k - 1].body) == 1 \
+            and isinstance(body[k - 1].body[0], ast.Return) and body[k - 1].body[0].value is not None:
+        guards.insert(0, body[k - 1])
+        k -= 1
+    plain = body[:k]
+    if any(isinstance(n, ast.Return) for s_ in plain for n in ast.walk(s_)):
+        return None
+    expr = body[-1].value
+    for g in reversed(guards):
+        expr = ast.IfExp(test=g.test, body=g.body[0].value, orelse=expr)
+    return plain, expr
+
+
 def _inlinable(fn):
     if fn.args.vararg or fn.args.kwarg or fn.args.posonlyargs:
         return False
@@ -180,9 +209,55 @@ def _inlinable(fn):
     body = [s for s in fn.body if not (isinstance(s, ast.Expr) and isinstance(s.value, ast.Constant) and isinstance(s.value.value, str))]
     if not body:
         return False
-    if len(rets) > 1 or (rets and rets[0] is not body[-1]):
-        return False
-    return True
+    if not rets:
+        return True
+    if len(rets) == 1 and rets[0] is body[-1]:
+        return True
+    if _guard_form(fn) is not None:
+        return True
+    return _single_exit(body, lambda e, st: [ast.Expr(value=e)]) is not None
+
+
+def _has_return(node):
+    return any(isinstance(n, ast.Return) for n in ast.walk(node))
+
+
+def _single_exit(stmts, assign):
+    """Statements with every `return e` replaced by assign(e) and the code after a returning `if` moved into the other arm.
+    Only tail returns are supported (none inside loops / try / with).  Returns (statements, always_exits) or None."""
+    out = []
+    for i, st in enumerate(stmts):
+        if isinstance(st, ast.Return):
+            out.extend(assign(st.value if st.value is not None else ast.Constant(value=None), st))
+            return out, True
+        if isinstance(st, ast.If) and _has_return(st):
+            b = _single_exit(st.body, assign)
+            o = _single_exit(st.orelse, assign)
+            if b is None or o is None:
+                return None
+            (body, bt), (orelse, ot) = b, o
+            rest = _single_exit(stmts[i + 1:], assign)
+            if rest is None:
+                return None
+            rest_s, rt = rest
+            if bt and ot:
+                new = ast.copy_location(ast.If(test=st.test, body=body, orelse=orelse), st)
+                return out + [new], True
+            if bt:
+                # a guard that only leaves (`if c: return`) has nothing to do on its own arm
+                noop = all(isinstance(x, ast.Expr) and isinstance(x.value, ast.Constant) for x in body)
+                if noop and (orelse + rest_s):
+                    body = [ast.copy_location(ast.Pass(), st)]
+                new = ast.copy_location(ast.If(test=st.test, body=body, orelse=orelse + rest_s), st)
+                return out + [new], rt
+            if ot:
+                new = ast.copy_location(ast.If(test=st.test, body=body + rest_s, orelse=orelse), st)
+                return out + [new], rt
+            return None
+        if _has_return(st):
+            return None          # a return inside a loop / try / with: not a tail return
+        out.append(st)
+    return out, False
 
 
 class _Inliner:
@@ -191,8 +266,25 @@ class _Inliner:
         self.counter = counter
         self.n = 0
 
+    bases = {}       # class name -> [base class names] for the whole program (set by canonicalise_program)
+
+    def mro(self, clsname):
+        out, todo = [], [clsname]
+        while todo:
+            c = todo.pop(0)
+            if c in out or c is None:
+                continue
+            out.append(c)
+            todo.extend(b.split(".")[-1] for b in self.bases.get(c, []))
+        return out
+
     def match(self, call, selfname, clsname):
         f = call.func
+        if isinstance(f, ast.Attribute) and isinstance(f.value, ast.Name) and f.value.id == selfname and clsname is not None:
+            # a helper inherited from a base class (possibly defined in another file)
+            for k in self.mro(clsname)[1:]:
+                if ("m", k, f.attr) in self.helpers:
+                    return self.helpers[("m", k, f.attr)]
         if isinstance(f, ast.Attribute) and isinstance(f.value, ast.Name) and f.value.id in (selfname, clsname):
             for cand in (f.attr, f"_{clsname}{f.attr}" if f.attr.startswith("__") else None):
                 if cand and ("m", clsname, cand) in self.helpers:
@@ -253,13 +345,31 @@ class _Inliner:
                 if x.id in local:
                     return ast.Name(id=f"{x.id}__h{k}", ctx=x.ctx)
                 return x
-        body = [copy.deepcopy(s) for s in fn.body
-                if not (isinstance(s, ast.Expr) and isinstance(s.value, ast.Constant) and isinstance(s.value.value, str))]
-        body = [Sub().visit(s) for s in body]
-        ret = ast.Constant(value=None)
-        if body and isinstance(body[-1], ast.Return):
-            r = body.pop()
-            ret = r.value if r.value is not None else ret
+        rets_ = [n_ for n_ in ast.walk(fn) if isinstance(n_, ast.Return)]
+        top_ = [s_ for s_ in fn.body if not (isinstance(s_, ast.Expr) and isinstance(s_.value, ast.Constant) and isinstance(s_.value.value, str))]
+        simple = not rets_ or (len(rets_) == 1 and top_ and rets_[0] is top_[-1])
+        gf = _guard_form(fn) if not simple else None
+        if not simple and gf is None:
+            # general tail-return shape: handed back as statements to be spliced with an assignment per return
+            body = [Sub().visit(copy.deepcopy(s_)) for s_ in fn.body
+                    if not (isinstance(s_, ast.Expr) and isinstance(s_.value, ast.Constant) and isinstance(s_.value.value, str))]
+            for s_ in pro + body:
+                for x in ast.walk(s_):
+                    if hasattr(x, "lineno"):
+                        x.lineno = call.lineno
+            self.n += 1
+            return pro, ("single-exit", body)
+        if gf is not None:
+            body = [Sub().visit(copy.deepcopy(s)) for s in gf[0]]
+            ret = Sub().visit(copy.deepcopy(gf[1]))
+        else:
+            body = [copy.deepcopy(s) for s in fn.body
+                    if not (isinstance(s, ast.Expr) and isinstance(s.value, ast.Constant) and isinstance(s.value.value, str))]
+            body = [Sub().visit(s) for s in body]
+            ret = ast.Constant(value=None)
+            if body and isinstance(body[-1], ast.Return):
+                r = body.pop()
+                ret = r.value if r.value is not None else ret
         for s in pro + body:
             for x in ast.walk(s):
                 if hasattr(x, "lineno"):
@@ -296,6 +406,24 @@ class _Inliner:
                     if res is None:
                         continue
                     stmts, ret = res
+                    if isinstance(ret, tuple) and ret[0] == "single-exit":
+                        # only where the call is the whole value of the statement
+                        if isinstance(st, ast.Assign) and st.value is call:
+                            mk = lambda e, at_, st=st: [ast.copy_location(ast.Assign(targets=copy.deepcopy(st.targets), value=e), st)]
+                        elif isinstance(st, ast.Return) and st.value is call:
+                            mk = lambda e, at_, st=st: [ast.copy_location(ast.Return(value=e), st)]
+                        elif isinstance(st, ast.Expr) and st.value is call:
+                            mk = lambda e, at_, st=st: [ast.copy_location(ast.Expr(value=e), st)]
+                        else:
+                            self.n -= 1
+                            continue
+                        conv = _single_exit(ret[1], mk)
+                        if conv is None:
+                            self.n -= 1
+                            continue
+                        out.extend(self.process(stmts + conv[0], selfname, clsname))
+                        done = True
+                        break
                     if isinstance(st, ast.Expr) and st.value is call:
                         out.extend(self.process(stmts, selfname, clsname))
                         if not (isinstance(ret, ast.Constant) and ret.value is None):
@@ -409,6 +537,67 @@ def inline_new_helpers(tree, known):
     return total
 
 
+def inline_new_helpers_program(trees, known_by_rel):
+    """Program-wide P4: like inline_new_helpers, but a new method is also inlined where a subclass (in any file) calls it."""
+    counter = itertools.count()
+    total = 0
+    _Inliner.bases = {}
+    for tree in trees.values():
+        for st in tree.body:
+            if isinstance(st, ast.ClassDef):
+                _Inliner.bases[st.name] = [ast.unparse(b) for b in st.bases]
+    for _ in range(3):
+        helpers = {}
+        owner = {}
+        for rel, tree in trees.items():
+            known = known_by_rel.get(rel)
+            if known is None:
+                continue
+            for st in tree.body:
+                if isinstance(st, ast.FunctionDef) and st.name not in known and _inlinable(st):
+                    helpers[("f", rel, st.name)] = (st, False, False)
+                elif isinstance(st, ast.ClassDef):
+                    for m in st.body:
+                        if isinstance(m, ast.FunctionDef) and f"{st.name}.{m.name}" not in known and _inlinable(m) \
+                                and not any(ast.unparse(d) in ("property", "classmethod") or ast.unparse(d).endswith(".setter") for d in m.decorator_list):
+                            static = any(ast.unparse(d) == "staticmethod" for d in m.decorator_list)
+                            helpers[("m", st.name, m.name)] = (m, True, static)
+                            owner[("m", st.name, m.name)] = (tree, st)
+        if not helpers:
+            break
+        n_round = 0
+        for rel, tree in trees.items():
+            # module-level helpers are visible in their own file only
+            local = {("f", None, k[2]): v for k, v in helpers.items() if k[0] == "f" and k[1] == rel}
+            local.update({k: v for k, v in helpers.items() if k[0] == "m"})
+            inl = _Inliner(local, counter)
+            for st in tree.body:
+                if isinstance(st, ast.FunctionDef):
+                    st.body = inl.process(st.body, None, None)
+                elif isinstance(st, ast.ClassDef):
+                    for m in st.body:
+                        if isinstance(m, ast.FunctionDef) and m.args.args:
+                            static = any(ast.unparse(d) == "staticmethod" for d in m.decorator_list)
+                            m.body = inl.process(m.body, None if static else m.args.args[0].arg, st.name)
+            n_round += inl.n
+        total += n_round
+        used = set()
+        for tree in trees.values():
+            used |= {n.attr for n in ast.walk(tree) if isinstance(n, ast.Attribute)} | {n.id for n in ast.walk(tree) if isinstance(n, ast.Name)}
+        for rel, tree in trees.items():
+            for st in list(tree.body):
+                if isinstance(st, ast.FunctionDef) and ("f", rel, st.name) in helpers and st.name not in used:
+                    tree.body.remove(st)
+                elif isinstance(st, ast.ClassDef):
+                    for m in list(st.body):
+                        if isinstance(m, ast.FunctionDef) and ("m", st.name, m.name) in helpers and m.name not in used \
+                                and f"_{st.name}{m.name}" not in used:
+                            st.body.remove(m)
+        if n_round == 0:
+            break
+    return total
+
+
 # ------------------------------------------------------------------------------------------------ P3b
 def _mentions(node, name):
     return any(isinstance(x, ast.Name) and x.id == name for x in ast.walk(node))
@@ -456,13 +645,137 @@ def accumulate_to_comprehension(tree):
     return n[0]
 
 
+def _propagate_inlined_aliases(tree):
+    """After P4 an argument that the helper updated in place appears as  `p__hK = a` ... `p__hK += d` ... `a = p__hK`.
+    `p__hK` names the same object as `a` throughout (it is never re-bound, and `a` is only re-bound from it), so it is
+    replaced by `a` and the resulting `a = a` statements are dropped."""
+    n = 0
+    for fn in [x for x in ast.walk(tree) if isinstance(x, ast.FunctionDef)]:
+        changed = True
+        while changed:
+            changed = False
+            plain = {}          # name -> list of plain-binding statements
+            for st in ast.walk(fn):
+                if isinstance(st, ast.Assign):
+                    for t in st.targets:
+                        for x in ([t] if not isinstance(t, (ast.Tuple, ast.List)) else t.elts):
+                            if isinstance(x, ast.Name):
+                                plain.setdefault(x.id, []).append(st)
+                elif isinstance(st, (ast.For, ast.comprehension)):
+                    for x in ast.walk(st.target):
+                        if isinstance(x, ast.Name):
+                            plain.setdefault(x.id, []).append(st)
+            for name, sts in plain.items():
+                if "__h" not in name or len(sts) != 1:
+                    continue
+                st = sts[0]
+                if not (isinstance(st, ast.Assign) and len(st.targets) == 1 and isinstance(st.targets[0], ast.Name)
+                        and isinstance(st.value, ast.Name)):
+                    continue
+                src = st.value.id
+                # the source may only be re-bound from the alias itself
+                others = [o for o in plain.get(src, []) if not (isinstance(o, ast.Assign) and isinstance(o.value, ast.Name)
+                                                                 and o.value.id == name) and getattr(o, "lineno", 0) >= st.lineno and o is not st]
+                if any(o for o in others if o is not st):
+                    continue
+                for x in ast.walk(fn):
+                    if isinstance(x, ast.Name) and x.id == name:
+                        x.id = src
+                n += 1
+                changed = True
+                break
+        # drop `a = a`
+        def strip(body):
+            out = []
+            for st in body:
+                for nm in ("body", "orelse", "finalbody"):
+                    b = getattr(st, nm, None)
+                    if isinstance(b, list) and b and isinstance(b[0], ast.stmt) and not isinstance(st, (ast.FunctionDef, ast.ClassDef)):
+                        nb = strip(b)
+                        setattr(st, nm, nb if nb or nm != "body" else [ast.copy_location(ast.Pass(), st)])
+                if isinstance(st, ast.Assign) and len(st.targets) == 1 and isinstance(st.targets[0], ast.Name) \
+                        and isinstance(st.value, ast.Name) and st.value.id == st.targets[0].id:
+                    continue
+                out.append(st)
+            return out
+        fn.body = strip(fn.body) or fn.body
+    return n
+
+
+# ------------------------------------------------------------------------------------------------ P4b
+def rename_private_functions(tree, known):
+    """A private function / method the reference does not know, opposite a private reference name that has disappeared from the
+    same scope, with the same number of parameters, is that function renamed: the reference name is restored (definition and
+    every `self.name(...)` / `name(...)` reference).  Only unambiguous one-to-one cases are mapped."""
+    if known is None:
+        return 0
+    n = 0
+    scopes = [(None, tree.body)] + [(st.name, st.body) for st in tree.body if isinstance(st, ast.ClassDef)]
+    for cname, body in scopes:
+        prefix = f"{cname}." if cname else ""
+        have = {st.name: st for st in body if isinstance(st, ast.FunctionDef)}
+        ref = {k[len(prefix):] for k in known if k.startswith(prefix) and "." not in k[len(prefix):]} if cname else \
+            {k for k in known if "." not in k}
+        ref = {k.replace("#setter", "") for k in ref}
+        extra = [nm for nm in have if nm not in ref and nm.startswith("_") and not (nm.startswith("__") and nm.endswith("__"))]
+        missing = [nm for nm in ref if nm not in have and nm.startswith("_") and not (nm.startswith("__") and nm.endswith("__"))]
+        if not extra or not missing:
+            continue
+        import difflib
+        pairs = []
+        taken = set()
+        for m in missing:
+            scored = []
+            for e in extra:
+                if e in taken:
+                    continue
+                sc = difflib.SequenceMatcher(None, e.strip("_"), m.strip("_")).ratio()
+                pn = known_params.get(prefix + m)
+                if pn is not None and pn == [a.arg for a in have[e].args.args]:
+                    sc += 0.5
+                elif pn is not None and len(pn) != len(have[e].args.args):
+                    sc -= 0.5
+                scored.append((sc, e))
+            scored.sort(reverse=True)
+            if not scored:
+                continue
+            best = scored[0]
+            margin = best[0] - (scored[1][0] if len(scored) > 1 else -1.0)
+            if (len(extra) == 1 and len(missing) == 1) or (best[0] >= 0.6 and margin >= 0.15):
+                pairs.append((best[1], m))
+                taken.add(best[1])
+        for old_, new_ in pairs:
+            have[old_].name = new_
+            for x in ast.walk(tree):
+                if isinstance(x, ast.Attribute) and x.attr in (old_, f"_{cname}{old_}" if cname else old_):
+                    x.attr = new_ if x.attr == old_ else f"_{cname}{new_}"
+                elif isinstance(x, ast.Name) and x.id == old_ and cname is None:
+                    x.id = new_
+            n += 1
+    return n
+
+
+known_params = {}      # optional: qualified reference name -> parameter names (not recorded yet: similarity decides)
+
+
 # ------------------------------------------------------------------------------------------------ driver
 def canonicalise(tree, known_functions=None):
-    _Polarity().visit(tree)
-    tree.body = _restructure(tree.body)
-    n = inline_new_helpers(tree, known_functions)
-    if n:
+    """Single-module form (P1-P4) - used by unit experiments; the program model uses canonicalise_program."""
+    canonicalise_program({"<module>": tree}, {"<module>": known_functions})
+    return tree
+
+
+def canonicalise_program(trees, known_by_rel):
+    """P1-P4 over every parsed module; P4 sees the whole program (helpers inherited across files)."""
+    for rel, tree in trees.items():
         _Polarity().visit(tree)
         tree.body = _restructure(tree.body)
-    ast.fix_missing_locations(tree)
-    return tree
+        rename_private_functions(tree, known_by_rel.get(rel))
+    n_inl = inline_new_helpers_program(trees, known_by_rel)
+    for rel, tree in trees.items():
+        if n_inl:
+            _propagate_inlined_aliases(tree)
+        _Polarity().visit(tree)
+        tree.body = _restructure(tree.body)
+        ast.fix_missing_locations(tree)
+    return trees
